@@ -77,9 +77,16 @@ func (s *SencBox) AddSample(sample SencSample) error {
 		}
 	}
 
-	if len(sample.SubSamples) > 0 {
+	if len(sample.SubSamples) > 0 || s.Flags&UseSubSampleEncryption != 0 {
+		// Size and Encode index SubSamples by sample number: keep one entry per sample,
+		// also for the samples without sub-samples that come before or after one that has them
+		for uint32(len(s.SubSamples)) < s.SampleCount {
+			s.SubSamples = append(s.SubSamples, nil)
+		}
 		s.SubSamples = append(s.SubSamples, sample.SubSamples)
-		s.Flags |= UseSubSampleEncryption
+		if len(sample.SubSamples) > 0 {
+			s.Flags |= UseSubSampleEncryption
+		}
 	}
 	s.SampleCount++
 	return nil
